@@ -45,7 +45,7 @@ class Run:
     """one observer on one scratch universe"""
 
     def __init__(self, recursive=True, full=False, as_bytes=False, root_spelling=None, small_reads=False, vanish_at=None,
-                 rm_fault_at=None, gate_reads=False):
+                 rm_fault_at=None, gate_reads=False, vanish_file=False, vanish_back=False):
         from watchdog.observers import inotify_c
         from watchdog.observers.inotify import InotifyObserver
 
@@ -81,14 +81,35 @@ class Run:
         self.add_calls = 0
         self.vanished = []
         if vanish_at is not None:
+            import ctypes
+
             def add_watch(fd, path, mask, _real=self._real_add_watch):
                 if self.started:
                     self.add_calls += 1
                     pth = os.fsdecode(path)
                     if self.add_calls == vanish_at and pth != self.uni.p("W") and os.path.isdir(pth):
                         import shutil
-                        shutil.rmtree(pth, ignore_errors=True)
-                        self.vanished.append(self.uni.rel(pth))
+                        par = os.path.dirname(pth)
+                        if vanish_file and par != self.uni.p("W") and par.startswith(self.uni.p("W") + os.sep):
+                            # the PARENT directory vanishes and a regular file takes its name: the path now leads through a
+                            # file and the kernel answers ENOTDIR, not ENOENT
+                            shutil.rmtree(par, ignore_errors=True)
+                            open(par, "w").close()
+                            self.vanished.append(self.uni.rel(par))
+                        elif vanish_back:
+                            # the directory vanishes just before the add-watch (ENOENT) and is back, with a file inside,
+                            # before the library's walk gets to it
+                            shutil.rmtree(pth, ignore_errors=True)
+                            self.vanished.append(self.uni.rel(pth))
+                            r_ = _real(fd, path, mask)
+                            saved = ctypes.get_errno()
+                            os.mkdir(pth)
+                            open(os.path.join(pth, "back"), "w").close()
+                            ctypes.set_errno(saved)
+                            return r_
+                        else:
+                            shutil.rmtree(pth, ignore_errors=True)
+                            self.vanished.append(self.uni.rel(pth))
                 return _real(fd, path, mask)
             inotify_c.inotify_add_watch = add_watch
 
@@ -647,9 +668,11 @@ def gen_paced(r, n):
     return init, bursts
 
 
-def run_bursts(init_ops, bursts, recursive=True, full=False, small_reads=False, vanish_at=None, rm_fault_at=None, gate_reads=False):
+def run_bursts(init_ops, bursts, recursive=True, full=False, small_reads=False, vanish_at=None, rm_fault_at=None, gate_reads=False,
+               vanish_file=False, vanish_back=False):
     """every burst is issued while the reader is held off; returns the delivered events per burst, the trees and probes"""
-    r = Run(recursive, full, False, small_reads=small_reads, vanish_at=vanish_at, rm_fault_at=rm_fault_at, gate_reads=gate_reads)
+    r = Run(recursive, full, False, small_reads=small_reads, vanish_at=vanish_at, rm_fault_at=rm_fault_at, gate_reads=gate_reads,
+            vanish_file=vanish_file, vanish_back=vanish_back)
     try:
         for op in init_ops:
             r.uni.apply(op)
